@@ -136,7 +136,8 @@ class C02(Prop):
         script per process: sequential installs / emissions on the main thread, on fresh threads and
         from destructors running while a thread unwinds from a panic (U / D: the context must not matter),
         local scopes on the main thread and on one persistent worker (L / G / l: inside, the local recorder
-        wins; afterwards that thread follows the global recorder like any other, e),
+        wins; afterwards that thread follows the global recorder like any other, e), emissions whose recorder
+        callback panics (caught; X) or emits again from inside (N: the nested emission reaches the same recorder),
         and a parallel phase (emitters vs further losing installs).  Judged by the property: the
         first install wins, every other attempt hands its own recorder back intact, emissions before
         it go to the no-op recorder, every emission after it reaches the winner, on every thread."""
@@ -145,7 +146,8 @@ class C02(Prop):
         n = 16 if ctx["tier"] == "quick" else 150
         scripts = [["E", "I1", "E", "I2", "E", "F", "J3", "F", "E", "P3"], ["F", "J1", "F", "E", "I2", "E", "P2", "I3", "E"],
                    ["D", "U1", "E", "D", "I2", "F", "U3", "E", "P2"],
-                   ["L50", "l51", "E", "e", "I1", "E", "e", "G52", "l53", "E", "e", "F"]]
+                   ["L50", "l51", "E", "e", "I1", "E", "e", "G52", "l53", "E", "e", "F"],
+                   ["X", "N", "I1", "E", "X", "E", "N", "E", "F", "X", "e", "E"]]
         for _ in range(n - len(scripts)):
             ops, r = [], 1
             for _ in range(rng.range(4, 12)):
@@ -153,7 +155,7 @@ class C02(Prop):
                 if k < 3:
                     ops.append("%s%d" % (rng.pick("IJU"), r)); r += 1
                 elif k < 7:
-                    ops.append(rng.pick("EFDe"))
+                    ops.append(rng.pick("EFDeXN"))
                 elif k < 9:
                     ops.append("%s%d" % (rng.pick("LGl"), 50 + len(ops)))
                 elif any(o[0] in "IJU" for o in ops):
@@ -181,7 +183,11 @@ class C02(Prop):
                 elif op[0] in "LGl":
                     if t != "V" + op[1:]:
                         problem = "emission inside a local scope (%s) was dispatched to %s, expected the local recorder %s" % (op, t, op[1:])
-                elif op[0] in "EFDe":
+                elif op[0] == "N":
+                    want = "N" if winner is None else "V%s/%s" % (winner, winner)
+                    if t != want:
+                        problem = "emission with a nested emission from inside the recorder callback gave %s, expected %s (outer/nested target)" % (t, want)
+                elif op[0] in "EFDeX":
                     want = "N" if winner is None else "V" + winner
                     if t != want:
                         problem = "emission (%s) was dispatched to %s, expected %s" % (op, t, want)
